@@ -384,8 +384,79 @@ Proof.
       * subst ls; rewrite (Hsub [""; ""]) in Hl; [discriminate Hl | | exact Hls].
         intros x Hx; rewrite !in_app_iff; tauto.
   - intro Hne; destruct O as [|x O]; [contradiction Hne; reflexivity|].
-    eexists; split; [|apply starts_with_app].
+    exists (opt_overview_prefix ++ usize_to_string (total_entries (opt_items (x :: O))) ++ opt_s0).
+    split; [|apply starts_with_app].
     unfold doc_full; rewrite !doc_lines_app; unfold part at 2; cbn [nonempty_map].
     rewrite !doc_lines_app, doc_lines_map_block; unfold doc_opt; rewrite doc_lines_cons_plain; unfold ovw_lines.
-    rewrite !in_app_iff; left; right; left; left; left; reflexivity.
+    rewrite !in_app_iff; cbn [In]; left; right; left; left; left; left; reflexivity.
 Qed.
+
+(* ================================================================== statements in terms of the specification *)
+Lemma wf_nonempty : forall (P : Type) (F : findings P), wf_findings F -> (F <> [] <-> exists p, has_finding p F).
+Proof.
+  intros P F H; split.
+  - intro Hne; destruct F as [|[p v] F]; [contradiction Hne; reflexivity|].
+    exists p; apply (wf_has_finding _ _ p H); exists v; split; [left; reflexivity|].
+    destruct (H p v (or_introl eq_refl)) as [Hv _]; exact Hv.
+  - intros [p [v [f [ls [z [Hin _]]]]]] E; subst F; destruct Hin.
+Qed.
+
+Lemma wf_has_vector : forall (P : Type) (F : findings P) p, wf_findings F -> (has_vector p F <-> has_finding p F).
+Proof. intros P F p H; unfold has_vector; apply wf_has_finding; exact H. Qed.
+
+Theorem full_roundtrip_spec : forall V O Q, names_without_lf V -> names_without_lf O -> names_without_lf Q ->
+  map drop_heading (read_full_report (generate_report V O Q)) = triples (items_full V O Q).
+Proof. intros V O Q HV HO HQ; apply full_roundtrip; apply names_without_lf_items; assumption. Qed.
+
+Theorem full_entries_exact_spec : forall V O Q, names_without_lf V -> names_without_lf O -> names_without_lf Q ->
+  Permutation (map drop_heading (read_full_report (generate_report V O Q)))
+              (triples (tag_findings AnyVul V ++ tag_findings AnyOpt O ++ tag_findings AnyQa Q)%list).
+Proof. intros V O Q HV HO HQ; apply full_entries_exact; apply names_without_lf_items; assumption. Qed.
+
+Theorem full_section_iff_spec : forall V O Q p, wf_findings V -> wf_findings O -> wf_findings Q ->
+  (has_line (key_line (any_section p)) (generate_report V O Q) <->
+   match p with
+   | AnyVul x => has_finding x V
+   | AnyOpt x => has_finding x O
+   | AnyQa x => has_finding x Q
+   end).
+Proof.
+  intros V O Q p HV HO HQ; unfold has_line.
+  rewrite (full_section_iff V O Q p (names_without_lf_items _ _ (wf_names _ _ HV))
+             (names_without_lf_items _ _ (wf_names _ _ HO)) (names_without_lf_items _ _ (wf_names _ _ HQ))).
+  destruct p; apply wf_has_vector; assumption.
+Qed.
+
+Theorem category_iff_vul : forall V O Q, wf_findings V -> wf_findings O -> wf_findings Q ->
+  (has_line_starting vul_overview_prefix (generate_report V O Q) <-> exists p, has_finding p V).
+Proof.
+  intros V O Q HV HO HQ; rewrite <- (wf_nonempty _ V HV).
+  apply (full_vul_block_iff V O Q (names_without_lf_items _ _ (wf_names _ _ HV))
+           (names_without_lf_items _ _ (wf_names _ _ HO)) (names_without_lf_items _ _ (wf_names _ _ HQ))).
+Qed.
+
+Theorem category_iff_opt : forall V O Q, wf_findings V -> wf_findings O -> wf_findings Q ->
+  (has_line_starting opt_overview_prefix (generate_report V O Q) <-> exists p, has_finding p O).
+Proof.
+  intros V O Q HV HO HQ; rewrite <- (wf_nonempty _ O HO).
+  apply (full_opt_block_iff V O Q (names_without_lf_items _ _ (wf_names _ _ HV))
+           (names_without_lf_items _ _ (wf_names _ _ HO)) (names_without_lf_items _ _ (wf_names _ _ HQ))).
+Qed.
+
+(* the QA block has no overview text of its own (its overview is a blank line): it is present
+   iff one of its sections is *)
+Theorem category_iff_qa : forall V O Q, wf_findings V -> wf_findings O -> wf_findings Q ->
+  ((exists q, has_line (key_line (qa_section q)) (generate_report V O Q)) <-> exists q, has_finding q Q).
+Proof.
+  intros V O Q HV HO HQ; split; intros [q H]; exists q;
+    apply (full_section_iff_spec V O Q (AnyQa q) HV HO HQ); exact H.
+Qed.
+
+(* the structure of the file: the three blocks in the order vulnerabilities, optimizations, QA,
+   each present iff its map is non-empty *)
+Theorem report_blocks : forall V O Q,
+  generate_report V O Q =
+  (if nonempty_map V then generate_vulnerability_report V ++ nl ++ nl else "") ++
+  (if nonempty_map O then generate_optimization_report O ++ nl ++ nl else "") ++
+  (if nonempty_map Q then generate_qa_report Q ++ nl ++ nl else "").
+Proof. reflexivity. Qed.
